@@ -11,6 +11,7 @@ import (
 	"runtime"
 	"strconv"
 	"sync"
+	"sync/atomic"
 	"time"
 
 	"github.com/smart-core-os/sc-golang/internal/verifhook"
@@ -39,7 +40,11 @@ func curGID() int64 {
 	return id
 }
 
+// yield points INSIDE a lock, used only by lock-held probes (one thread at a time asks for one)
+var probePoints = map[string]bool{"bus.send.snapshot": true, "bus.listen.register": true}
+
 type thread struct {
+	extra  atomic.Value // string: the probe point this thread also parks at
 	gid    int64
 	park   chan string
 	resume chan struct{}
@@ -58,7 +63,7 @@ var ctl = &controller{threads: map[int64]*thread{}}
 
 func init() {
 	verifhook.Set(func(point string) {
-		if !gatePoints[point] {
+		if !gatePoints[point] && !probePoints[point] {
 			return
 		}
 		gid := curGID()
@@ -66,6 +71,9 @@ func init() {
 		t := ctl.threads[gid]
 		ctl.mu.RUnlock()
 		if t == nil {
+			return
+		}
+		if !gatePoints[point] && t.extra.Load() != point {
 			return
 		}
 		t.park <- point
@@ -76,6 +84,7 @@ func init() {
 // spawn starts a managed goroutine that runs fn once it is first released.
 func (c *controller) spawn(fn func()) *thread {
 	t := &thread{park: make(chan string), resume: make(chan struct{}), done: make(chan struct{})}
+	t.extra.Store("")
 	ready := make(chan struct{})
 	go func() {
 		t.gid = curGID()
@@ -140,4 +149,62 @@ func (c *controller) abandon(ts []*thread) {
 			}
 		}
 	}
+}
+
+// probeLockHeld parks `holder` at a yield point that lies inside a lock, releases `other` into a
+// step that needs the same lock, and reports whether `other` was kept out until `holder` moved on.
+// Afterwards both have completed one model step each (holder first), or an error is returned.
+func (c *controller) probeLockHeld(holder *thread, point string, other *thread) (blocked bool, err error) {
+	holder.extra.Store(point)
+	holder.resume <- struct{}{}
+	holder.steps++
+	select {
+	case p := <-holder.park:
+		if p != point {
+			holder.extra.Store("")
+			holder.at = p
+			return false, fmt.Errorf("holder parked at %q before reaching %q", p, point)
+		}
+	case <-holder.done:
+		holder.ended = true
+		return false, fmt.Errorf("holder ended before reaching %q", point)
+	case <-time.After(stepTimeout):
+		return false, fmt.Errorf("holder did not reach %q", point)
+	}
+	holder.extra.Store("")
+	// holder is inside the lock now; let the other thread try
+	other.resume <- struct{}{}
+	other.steps++
+	otherDone := false
+	select {
+	case p := <-other.park:
+		other.at = p
+		otherDone = true
+	case <-other.done:
+		other.ended = true
+		otherDone = true
+	case <-time.After(60 * time.Millisecond):
+		blocked = true
+	}
+	// let the holder finish its step
+	holder.resume <- struct{}{}
+	select {
+	case p := <-holder.park:
+		holder.at = p
+	case <-holder.done:
+		holder.ended = true
+	case <-time.After(stepTimeout):
+		return blocked, fmt.Errorf("holder did not finish its step")
+	}
+	if !otherDone {
+		select {
+		case p := <-other.park:
+			other.at = p
+		case <-other.done:
+			other.ended = true
+		case <-time.After(stepTimeout):
+			return blocked, fmt.Errorf("blocked thread did not resume after the lock was released")
+		}
+	}
+	return blocked, nil
 }
